@@ -2,6 +2,7 @@ package wire
 
 import (
 	"bytes"
+	"errors"
 	"io"
 	"unicode/utf8"
 
@@ -17,11 +18,11 @@ import (
 // C05: rejection at the first offending frame.
 
 func isRejection(err error) bool {
-	if err == wsutil.ErrFrameTooLarge {
+	if errors.Is(err, wsutil.ErrFrameTooLarge) {
 		return true
 	}
-	_, ok := err.(ws.ProtocolError)
-	return ok
+	var pe ws.ProtocolError
+	return errors.As(err, &pe)
 }
 
 // openAt describes the reader's position in stream s just before frame index k.
@@ -451,7 +452,7 @@ func C07(r *eng.Run) {
 			}
 		}
 	}
-	if o.Err != wsutil.ErrInvalidUTF8 {
+	if !errors.Is(o.Err, wsutil.ErrInvalidUTF8) {
 		r.Failf("invalid_text_not_reported", "%s: invalid text message ended with %v from %s, expected ErrInvalidUTF8", cfg.Name(), o.Err, o.ErrAt)
 	}
 	if o.Open != nil && (len(o.Open.Data) > len(badMsg.Payload) || !bytes.Equal(o.Open.Data, badMsg.Payload[:len(o.Open.Data)])) {
